@@ -28,6 +28,7 @@ from spec.floats import *
 from spec.c14 import *
 from spec.c14x_refine import *
 from spec.c14y_refine import *
+from fractions import Fraction
 
 
 def size(cond):
@@ -138,16 +139,127 @@ class C14y_implied_2(Contract):
         return _implied_post(cond, truth, result)
 
 
-class C14y_implied_compare(Contract):
-    """interface of the leaf as `_implied` uses it"""
-    target = 'fpy2.analysis.format_infer.analysis:_FormatInferInstance._implied_compare'
-    params = {'self': '_FormatInferInstance', 'cond': 'Compare', 'truth': 'bool'}
+class C14y_implied_1(Contract):
+    """And / Or with 1 operand"""
+    target = 'fpy2.analysis.format_infer.analysis:_FormatInferInstance._implied'
+    params = {'self': '_FormatInferInstance', 'cond': 'And | Or', 'truth': 'bool'}
+    overrides = {'cond.args@And': 'tuple[Key[Expr]]', 'cond.args@Or': 'tuple[Key[Expr]]'}
+    split = ['cond']
     returns = 'AbsList'
     properties = ['C14']
+    note = 'bounded in the arity of And / Or (1 operand); see C14y_implied_2'
+
+    def pre(self, cond, truth):
+        return {'wf': wf_cond(cond)}
+
+    def axioms(self, cond, truth):
+        return _implied_axioms(cond)
+
+    def decreases(self, cond, truth):
+        return (size(cond),)
+
+    def post(self, cond, truth, result):
+        return _implied_post(cond, truth, result)
+
+
+class C14y_implied_3(Contract):
+    """And / Or with 3 operands"""
+    target = 'fpy2.analysis.format_infer.analysis:_FormatInferInstance._implied'
+    params = {'self': '_FormatInferInstance', 'cond': 'And | Or', 'truth': 'bool'}
+    overrides = {'cond.args@And': 'tuple[Key[Expr], Key[Expr], Key[Expr]]',
+                 'cond.args@Or': 'tuple[Key[Expr], Key[Expr], Key[Expr]]'}
+    split = ['cond']
+    returns = 'AbsList'
+    properties = ['C14']
+    note = 'bounded in the arity of And / Or (3 operands); see C14y_implied_2'
+
+    def pre(self, cond, truth):
+        return {'wf': wf_cond(cond)}
+
+    def axioms(self, cond, truth):
+        return _implied_axioms(cond)
+
+    def decreases(self, cond, truth):
+        return (size(cond),)
+
+    def post(self, cond, truth, result):
+        return _implied_post(cond, truth, result)
+
+
+# ---------------------------------------------------------------------------
+# the leaf `_implied_compare(cond, truth)` under the SAME statement (interface used by `_implied`), verified against
+# the code for one comparison operator and the operand shapes
+#     (Var, literal)   (literal, Var)   and every other pair (Var, Var / literal, literal / BoolVal ..: nothing is returned)
+# The literal is a `Rational` node p/q (every RationalVal subclass is read through as_rational() only, those have C06
+# contracts); DefineUse is the abstract stand-in DefUseM (spec/c14x_refine.py).  Defining equations (axioms):
+#     holds(Compare([op], [x, c]))   == val_cmp(op, def(x), c)          wf_cond(..) == the leaf preconditions
+#     holds(Compare([op], [c, x]))   == val_cmp(swap(op), def(x), c)
+
+def _leaf_wf(inst, x, y):
+    """the preconditions of the leaf lemmas (contracts/c14x_refine.py `_cmp_pre`) for the variable use x and the literal y"""
+    if y.q == 0:
+        return False                    # Fraction(p, 0) raises: not a literal
+    g = GRID()
+    d = map_at(inst.type_info.def_use.use_to_def, x)
+    c = Fraction(y.p, y.q)
+    return ((x in inst.type_info.def_use.use_to_def) and (not logb_def(d)) and val_ok(d, g)
+            and g <= 0 and g <= lit_exp(c))
+
+
+def _leaf_holds(inst, x, y, opname):
+    g = GRID()
+    d = map_at(inst.type_info.def_use.use_to_def, x)
+    return val_cmp(opname, d, Fraction(y.p, y.q), g)
+
+
+def op_name(op):
+    """the member name of a (symbolic) CompareOp as a concrete string: forks the path over the six members"""
+    for nm in ('LT', 'LE', 'GE', 'GT', 'EQ'):
+        if op.name == nm:
+            return nm
+    return 'NE'
+
+
+def _compare_axioms(inst, cond):
+    a = cond.args[0]
+    b = cond.args[1]
+    opname = op_name(cond.ops[0])
+    if cls_name(a) == 'Var' and cls_name(b) == 'Rational':
+        if b.q == 0:
+            return {'wf_var_lit': not wf_cond(cond)}
+        return {'wf_var_lit': wf_cond(cond) == _leaf_wf(inst, a, b),
+                'holds_var_lit': holds(cond) == _leaf_holds(inst, a, b, opname)}
+    if cls_name(a) == 'Rational' and cls_name(b) == 'Var':
+        if a.q == 0:
+            return {'wf_lit_var': not wf_cond(cond)}
+        return {'wf_lit_var': wf_cond(cond) == _leaf_wf(inst, b, a),
+                'holds_lit_var': holds(cond) == _leaf_holds(inst, b, a, swap_name(opname))}
+    return {}
+
+
+class C14y_implied_compare(Contract):
+    """`cond` (one comparison) has outcome `truth`  ==>  every refinement returned holds"""
+    target = 'fpy2.analysis.format_infer.analysis:_FormatInferInstance._implied_compare'
+    params = {'self': '_FormatInferInstance', 'cond': 'Compare', 'truth': 'bool'}
+    overrides = {'self.type_info.def_use': 'DefUseM',
+                 'cond.ops': 'tuple[CompareOp]',
+                 'cond.args': 'tuple[Var | Rational | BoolVal, Var | Rational | BoolVal]'}
+    split = ['truth']
+    returns = 'AbsList'
+    no_use = ['Rational_as_rational']
+    properties = ['C14']
+    options = {'key_attrs': 'spec.c14x_refine:KEY_ATTRS'}
+    note = ('verified for the operand shapes (Var, Rational), (Rational, Var) and the pairs over Var / Rational / BoolVal that '
+            'return nothing (BoolVal stands for every class that is neither Var nor RationalVal); `_implied_logb` is excluded '
+            'by wf_cond (not_logb), as in the leaf lemmas; axioms = defining equations of holds / wf_cond for a comparison')
 
     def pre(self, cond, truth):
         return {'one_op': len(cond.ops) == 1, 'arity': len(cond.args) == 2, 'wf': wf_cond(cond)}
 
+    def axioms(self, cond, truth):
+        return _compare_axioms(self, cond)
+
     def post(self, cond, truth, result):
         return {'ok': alist_all(ref_ok, result),
-                'implied': implies(holds(cond) == truth, alist_all(ref_holds, result))}
+                'implied': implies(holds(cond) == truth, alist_all(ref_holds, result)),
+                'at_most_one': alist_len(result) <= 1}
